@@ -79,6 +79,8 @@ Not decided: that the parsed list equals the source list, hoisted inner names fo
     // "nothing is added": COMPONENTS OF takes the root components of the referenced type and only those, at the position of the
     // notation (the analysis lives with C09.splice)
     borrow(ctx, "C09", "C09.splice", "C02.splice", &mut |sub| crate::rules::c09::run(m, sub));
+    // the rasn dispatcher and the generator methods agree on the kind each method is written for
+    crate::rules::c18::dispatch_agreement(m, ctx, "C02.dispatch", "Rasn", "generate_type", "tld.ty");
     sym(m, ctx);
     order(m, ctx);
     kindmap(m, ctx);
